@@ -130,7 +130,9 @@ class Binding:
                     return True           # weights on an unweighted object
                 keys = [(tuple(it["k"]["s"]), tuple(it["k"]["t"]), it["k"]["x"]) for it in its]
                 if hasw and len(set(keys)) != len(keys):
-                    return True           # repeated key in a weighted batch
+                    # repeated key in a weighted batch: the call may be rejected or folded (open
+                    # corner), but a rejection must still leave the state unchanged
+                    op["mayreject"] = True
             if name == "remove_edges":
                 keys = [(tuple(k["s"]), tuple(k["t"]), k["x"]) for k in op["ks"]]
                 if len(set(keys)) != len(keys):
